@@ -104,6 +104,7 @@ var siteClasses = map[string]bool{
 	"UnsafeDebugFlag":  true, // reads the process-wide unsafe debug flag (debug.dont_blame_oasis) inside consensus-relevant code: replicas agree only if they agree on the flag; documented as never to be set in production
 	"LoggedOnly":       true, // node-local read/call whose result is only logged (or discarded): it cannot flow into state, events or results (lemma exec_block_ignores_local_oracle)
 	"HaltsNode":        true, // node-local result can only stop this node (ErrStopForUpgrade / panic before anything is committed); it never changes what a node that keeps running computes
+	"PanicToReject":    true, // recover() handler that turns a panic during proposal execution into an empty proposal / REJECT and RESETS the proposal cache (model: StaleAborted, aborted_round_harmless)
 	"Deterministic":    true, // (non-map kinds) value is consensus-determined despite the API used (e.g. rand seeded from the beacon)
 }
 
@@ -242,6 +243,19 @@ func genMuxMapSites() error {
 					case *ast.SelectStmt:
 						add(fd, "select", x)
 					case *ast.CallExpr:
+						if id, ok := x.Fun.(*ast.Ident); ok && id.Name == "recover" {
+							if _, isBuiltin := p.TypesInfo.Uses[id].(*types.Builtin); isBuiltin {
+								// the whole deferred handler: what it does after recovering matters
+								var n2 ast.Node = x
+								for i := len(stack) - 1; i >= 0; i-- {
+									if d, ok := stack[i].(*ast.DeferStmt); ok {
+										n2 = d
+										break
+									}
+								}
+								add(fd, "recover", n2)
+							}
+						}
 						if se, ok := x.Fun.(*ast.SelectorExpr); ok {
 							if id, ok := se.X.(*ast.Ident); ok {
 								if pn, ok := p.TypesInfo.Uses[id].(*types.PkgName); ok {
@@ -382,7 +396,7 @@ func genMuxMapSites() error {
 	sb.WriteString("   replica-local nondeterminism in the packages executed during block processing, with the\n")
 	sb.WriteString("   class from the reviewed table coq/Abci/mapsites_reviewed.json. *)\n")
 	sb.WriteString("From Coq Require Import String List.\nImport ListNotations.\nOpen Scope string_scope.\n")
-	sb.WriteString("Inductive siteclass := SortedBeforeUse | OrderInsensitive | ErrorOnly | NotInExecPath | LocalOnly | Deterministic | UnsafeDebugFlag | LoggedOnly | HaltsNode | Unreviewed.\n")
+	sb.WriteString("Inductive siteclass := SortedBeforeUse | OrderInsensitive | ErrorOnly | NotInExecPath | LocalOnly | Deterministic | UnsafeDebugFlag | LoggedOnly | HaltsNode | PanicToReject | Unreviewed.\n")
 	sb.WriteString("Record site := mkSite { s_file : string; s_func : string; s_kind : string; s_hash : string; s_class : siteclass }.\n")
 	sb.WriteString("Definition sites : list site := [\n")
 	for i := range sites {
